@@ -79,8 +79,8 @@ def defuse_xml(fp: IOType, rewind: bool = True) -> IOType:
         for event, node in pulldom.parse(fp, parser):
             if event == pulldom.START_ELEMENT:
                 break
-    except SAXParseException:
-        pass  # the purpose is to defuse not to check xml source syntax
+    except (SAXParseException, LookupError):
+        pass  # the purpose is to defuse not to check xml source syntax (or encoding)
     except OSError as err:
         raise XMLResourceOSError(err)
 
